@@ -5,10 +5,12 @@ Driver ops for the text-level model of the raw-HTML tokenizer + extractor (C04).
                           `extract.ev` (`Driver/ExtractOps.lean`), or `ood`
 `htmltok.extract <src>`   `encList(lines)|encList(stash)` of the preprocessor (`HtmlBlockPreprocessor.run`), or `ood`
 `htmltok.state <src>`     the whole final extractor state, as `extract.state`, or `ood`
+`htmltok.lex <src>`       `1` when `HtmlFrag.lex` reads the text as a token sequence of the grammar, else `0`
 `converth <tab> <html|xhtml> <src>`   `PipelineH.convertH`: `ok <str>` | `oof` | `err` | `ood`
 -/
 import MdVerif.Model.ExtractText
 import MdVerif.Model.PipelineH
+import MdVerif.Spec.HtmlLex
 import Driver.Proto
 
 namespace Driver
@@ -40,6 +42,7 @@ def htmlTokHandler : Handler := fun op args =>
       some ("|".intercalate [encBool st.inraw, encBool st.intail, encList st.stack.reverse, encList st.cache,
         encList st.cleandoc, encList st.stash])
     | none => some "ood"
+  | "htmltok.lex", [src] => some (encBool (MdVerif.HtmlFrag.lex (decStr src)).isSome)
   | "converth", [tab, fmt, src] =>
     let cfg : MdVerif.Pipeline.Cfg := { tab := decNat tab, fmt := if fmt == "html" then .html else .xhtml }
     some (match MdVerif.PipelineH.convertH cfg (decStr src) with
